@@ -144,6 +144,24 @@ def _escape_chunk(args):
     return part
 
 
+# the delimiters of XML's own constructs: text that *looks like* a CDATA section, a comment,
+# a processing instruction or a character reference is still just text to be escaped
+MARKUP = ["<![CDATA[", "]]>", "<!--", "-->", "<?xml ", "?>", "&#x", "x < y & z", "a", ";"]
+
+
+def _markup_chunk(firsts):
+    part = core.Part()
+    for first in firsts:
+        for length in range(0, 4):
+            for rest in itertools.product(MARKUP, repeat=length):
+                text = first + "".join(rest)
+                part.count("escape_cases")
+                part.count("markup_sequences")
+                for clause, msg in check_escape(text):
+                    part.violation(f"{clause}:{text!r}", msg, {"kind": "escape", "text": text})
+    return part
+
+
 LONG_COUNTS = [8, 16, 31, 32, 33, 34, 63, 64, 65, 100, 127, 128, 129, 255, 256, 257, 1000, 4097]
 
 
@@ -278,7 +296,7 @@ def _dispatch(job):
     return {"esc": _escape_chunk, "dur": _duration_chunk, "half": _half_chunk,
             "halfms": _halfms_chunk,
             "int": _int_chunk, "long": _long_chunk, "edge": _edge_chunk,
-            "cp": _codepoint_chunk}[job[0]](job[1])
+            "cp": _codepoint_chunk, "markup": _markup_chunk}[job[0]](job[1])
 
 
 def run(ctx):
@@ -289,6 +307,8 @@ def run(ctx):
             jobs.append(("esc", (chunk, length)))
     for chunk in core.split(long_texts(ctx), 16):
         jobs.append(("long", chunk))
+    for chunk in core.split(MARKUP, 10):
+        jobs.append(("markup", chunk))
     for low, high in LEGAL_RANGES:
         for start in range(low, high + 1, 0x4000):
             jobs.append(("cp", (start, min(start + 0x4000, high + 1))))
@@ -321,7 +341,8 @@ def run(ctx):
         "traces_validated_against_impl": total,
         "evaluations": total,
         "distinct_nontrivial": cnt.get("nontrivial", 0),
-        "rule": f"all token sequences of length 0..{max_len} over {len(TOKENS)} tokens (special "
+        "rule": f"all sequences of 1..4 of {len(MARKUP)} XML construct delimiters (CDATA, comment, "
+                f"PI, character reference); all token sequences of length 0..{max_len} over {len(TOKENS)} tokens (special "
                 "characters, pre-escaped entities, mixed quotes) parsed back with lxml; every token "
                 f"and four mixed patterns repeated {LONG_COUNTS} times, four patterns at lengths "
                 "2^16-1..2^17+1; every XML 1.0 character "
